@@ -432,6 +432,10 @@ class Msg(object):
     def __init__(self, topic, ctx, method, kwargs, waiter=None):
         self.topic = topic
         self.ctx = SER.serialize_context(ctx) if ctx is not None else {}
+        # "redelivered" is a per-delivery mark of the transport: a message
+        # sent while handling a redelivered request does not inherit it
+        if self.ctx.get('redelivered'):
+            self.ctx['redelivered'] = False
         self.method = method
         self.kwargs = {k: SER.serialize_entity(None, v)
                        for k, v in kwargs.items()}
@@ -579,7 +583,11 @@ class VerifAct(ml_actions.Action):
     def run(self, context):
         n = W.runs.get(self.key, 0)
         W.runs[self.key] = n + 1
-        W.run_log.append((self.key, n))
+        try:
+            aid = context.execution.action_execution_id
+        except Exception:
+            aid = None
+        W.run_log.append((self.key, n, aid))
         seq = W.results.get(self.key) or ['S']
         r = seq[min(n, len(seq) - 1)]
         if r == 'S':
@@ -606,10 +614,10 @@ class VerifAsyncAct(VerifAct):
     def run(self, context):
         n = W.runs.get(self.key, 0)
         W.runs[self.key] = n + 1
-        W.run_log.append((self.key, n))
+        aid = context.execution.action_execution_id
+        W.run_log.append((self.key, n, aid))
         seq = W.results.get(self.key) or ['S']
         r = seq[min(n, len(seq) - 1)]
-        aid = context.execution.action_execution_id
         if r == 'N':          # the third party never answers
             return None
         if r == 'S':
